@@ -630,6 +630,12 @@ def run_twin(case):
                 else:
                     sim.sides[k].expect(cmd, ("silent",))
 
+        # each line has a bus_traffic listener of its own: it hears its own line only
+        heard = {"A": [], "B": []}
+        for k in "AB":
+            sim.drivers[k].bus_traffic.register(
+                lambda d, c, r, e, k=k: heard[k].append((type(c).__name__, None if r is None else sc.describe_response(r).get("raw"))))
+
         async def caller(k):
             await asyncio.sleep(case["t0"][k])
             for cmd in cmds[k]:
@@ -658,6 +664,16 @@ def run_twin(case):
                 if got["type"] is None or got["raw"][:len(exp)] != exp:
                     out.append(("C16:%s:twin:answer-of-the-other-gateway-or-lost" % case["twin"],
                                 "%s: command %s returned %r, its own gateway answered %r" % (where, c, got, exp)))
+        if not out:
+            sim.loop.settle()
+            for k in "AB":
+                mine = [h for h in heard[k] if h[0] != "EnableDeviceType"]
+                want = [type(c).__name__ for c in cmds[k]]
+                if [h[0] for h in mine] != want:
+                    out.append(("C16:%s:twin:bus-traffic-of-the-other-line-or-lost" % case["twin"],
+                                "%s driver %s of two: its bus_traffic listener heard %r, the line carried %r (the other line's "
+                                "listener heard %r)" % (case["twin"], k, mine[:8], want, heard["B" if k == "A" else "A"][:8])))
+                    break
         if sim.loop.exceptions:
             out.append(("C16:%s:twin:unhandled-exception" % case["twin"], repr(sim.loop.exceptions[:2])[:300]))
     finally:
